@@ -32,7 +32,8 @@ def Regs.putRaw (r : Regs) (c : Nat) (s : Bytes) (ln : Nat) : Regs :=
 def Regs.getRaw (r : Regs) (c : Nat) : Option Bytes × Nat := (r.buf.getD c none, r.ln.getD c 0)
 
 /-- `reg_put(c, s, ln)` -/
-def Regs.put (r : Regs) (c : Nat) (s : Bytes) (ln : Nat) : Regs :=
+def Regs.put (r : Regs) (c0 : Nat) (s : Bytes) (ln : Nat) : Regs :=
+  let c := if c0 == 34 then 0 else c0        -- `"` names the unnamed register
   let r1 :=
     if (ln != 0 || s.contains 10) && (c == 0 || isAlphaC c) then
       let shifted := [8, 7, 6, 5, 4, 3, 2, 1].foldl (fun (acc : Regs) i =>
